@@ -2,14 +2,19 @@
 (***************************************************************************)
 (* A small Python project seen through its import graph.                   *)
 (*                                                                         *)
-(*   world  W = [body, pkgs]                                               *)
+(*   world  W = [body, pkgs, mid]                                          *)
 (*     body : module path (sequence of names) -> sequence of statements    *)
 (*     pkgs : the paths that are packages (their body is __init__.py)      *)
+(*     mid  : module path -> identity of the module (its original path;    *)
+(*            moving or renaming a module changes the path, not this)      *)
 (*                                                                         *)
 (*   statements                                                            *)
-(*     def     [k:"def", n, kind, id]      a function/class/variable that  *)
+(*     def     [k:"def", n, kind, id, refs] a function/class/variable that *)
 (*                                         identifies itself (id) when     *)
-(*                                         used                            *)
+(*                                         used, followed by what its own  *)
+(*                                         references (refs, looked up in  *)
+(*                                         the globals of the module that  *)
+(*                                         holds it, at call time) reach   *)
 (*     import  [k:"import", items: Seq([path, as])]    import a.b [as x]   *)
 (*     from    [k:"from", level, path, items: Seq([n, as])]                *)
 (*                                         from ..a.b import n [as y] / *  *)
@@ -91,7 +96,8 @@ ModV(p) == [t |-> "mod", x |-> p]
 AllV(names) == [t |-> "all", x |-> names]
 
 \* statements
-Def(n, kind, id) == [k |-> "def", n |-> n, kind |-> kind, id |-> id]
+Def(n, kind, id) == [k |-> "def", n |-> n, kind |-> kind, id |-> id, refs |-> <<>>]
+DefR(n, kind, id, refs) == [k |-> "def", n |-> n, kind |-> kind, id |-> id, refs |-> refs]
 ImpItem(path, as) == [path |-> path, as |-> as]
 Import(items) == [k |-> "import", items |-> items]
 FromItem(n, as) == [n |-> n, as |-> as]
@@ -108,7 +114,7 @@ IsStar(s) == s.k = "from" /\ s.items = Star
 (* Part 1: execution.                                                      *)
 (* st = [ns, out, reads, err]                                              *)
 (*   ns    : started module path -> (name -> value)   (sys.modules + dicts)*)
-(*   out   : Seq(<<module path, def id>>)  what has been printed           *)
+(*   out   : Seq(<<module identity, def id, ids reached by the def's refs>>)*)
 (*   reads : set of <<reader, module, name>> attribute reads of modules    *)
 (*   err   : "" or the exception class that ended the run                  *)
 
@@ -207,7 +213,7 @@ RECURSIVE BindStar(_, _, _, _, _)
 BindStar(st, m, t, names, i) ==
   IF st.err # "" \/ i > Len(names) THEN st
   ELSE LET n == names[i]
-           s1 == IF HasAttr(st, t, n) THEN Bind(st, m, n, st.ns[t][n])
+           s1 == IF HasAttr(st, t, n) THEN Bind(NoteRead(st, m, t, n), m, n, st.ns[t][n])
                  ELSE Fail(st, "AttributeError")
        IN BindStar(s1, m, t, names, i + 1)
 
@@ -239,6 +245,23 @@ RefReads(st, m, e) ==
   { <<m, EvalRef(st, m, e, i - 1)[2].x, e[i]>> :
       i \in {j \in 2..Len(e) : EvalRef(st, m, e, j)[1] = ""} }
 
+\* where definition id is written: <<module, statement index>>
+DefSite(w, id) ==
+  CHOOSE q \in UNION { { <<m, i>> : i \in DOMAIN w.body[m] } : m \in Mods(w) } :
+    w.body[q[1]][q[2]].k = "def" /\ w.body[q[1]][q[2]].id = id
+
+\* calling definition id: its references are looked up now, in the module that holds it
+\* <<"" | error, ids reached, module attribute reads>>
+CallDef(w, st, id) ==
+  LET site == DefSite(w, id)
+      h == site[1]
+      rs == w.body[h][site[2]].refs
+      ev == [j \in DOMAIN rs |-> EvalRef(st, h, rs[j], Len(rs[j]))]
+      bad == {j \in DOMAIN rs : ev[j][1] # ""}
+  IN IF bad # {} THEN <<ev[CHOOSE j \in bad : \A k \in bad : j <= k][1], <<>>, {}>>
+     ELSE IF \E j \in DOMAIN rs : ev[j][2].t # "def" THEN <<"NotADefinition", <<>>, {}>>
+     ELSE <<"", [j \in DOMAIN rs |-> ev[j][2].x], UNION { RefReads(st, h, rs[j]) : j \in DOMAIN rs }>>
+
 ExecStmt(w, st, m, s) ==
   CASE s.k = "def"    -> Bind(st, m, s.n, DefV(s.id))
     [] s.k = "future" -> st
@@ -249,8 +272,10 @@ ExecStmt(w, st, m, s) ==
          LET r == EvalRef(st, m, s.e, Len(s.e)) IN
          IF r[1] # "" THEN Fail(st, r[1])
          ELSE IF r[2].t # "def" THEN Fail(st, "NotADefinition")
-         ELSE [st EXCEPT !.out = Append(@, <<m, r[2].x>>),
-                         !.reads = @ \cup RefReads(st, m, s.e)]
+         ELSE LET c == CallDef(w, st, r[2].x) IN
+              IF c[1] # "" THEN Fail(st, c[1])
+              ELSE [st EXCEPT !.out = Append(@, <<w.mid[m], r[2].x, c[2]>>),
+                              !.reads = @ \cup RefReads(st, m, s.e) \cup c[3]]
 
 \* python -c "import <e>"
 RunEntry(w, e) == ImportChain(w, St0, e, 1)
@@ -258,11 +283,12 @@ RunEntry(w, e) == ImportChain(w, St0, e, 1)
 -----------------------------------------------------------------------------
 (* Part 2: observables *)
 
-OwnLines(out, e) == SelectSeq(out, LAMBDA l : l[1] = e)
+OwnLines(out, i) == SelectSeq(out, LAMBDA l : l[1] = i)
 
 \* what running module e as the entry shows of e itself
-ObsOf(w, e) == LET r == RunEntry(w, e) IN [out |-> OwnLines(r.out, e), err |-> r.err]
-Obs(w) == [e \in Mods(w) |-> ObsOf(w, e)]
+ObsOf(w, e) == LET r == RunEntry(w, e) IN [out |-> OwnLines(r.out, w.mid[e]), err |-> r.err]
+\* ... for every module, by module identity
+Obs(w) == { <<w.mid[e], ObsOf(w, e)>> : e \in Mods(w) }
 
 \* modules an import statement of m names (statically): the target, and from-imported
 \* names that are submodules; asking for one also asks for every package on the way
@@ -271,6 +297,15 @@ StmtTargets(w, m, s) ==
     [] s.k = "from" ->
          LET t == FromTarget(w, m, s)
          IN {t} \cup { Append(t, it.n) : it \in Range(s.items) }
+    [] OTHER -> {}
+\* the modules a statement imports as such ( from . import sub  in a package __init__ names the
+\* submodule, not the package; taking one of its own globals that way names the package itself)
+SelfNamed(w, m, s) ==
+  CASE s.k = "import" -> { it.path : it \in Range(s.items) }
+    [] s.k = "from" ->
+         LET t == FromTarget(w, m, s)
+         IN { Append(t, it.n) : it \in Range(s.items) }
+            \cup (IF t = m /\ \E it \in Range(s.items) : Append(m, it.n) \notin Mods(w) THEN {m} ELSE {})
     [] OTHER -> {}
 Prefixes(path) == {SubSeq(path, 1, i) : i \in 1..Len(path)}
 StmtLoads(w, m, s) == UNION { Prefixes(t) : t \in StmtTargets(w, m, s) }
@@ -287,7 +322,7 @@ SubmoduleNames(w, m, s) ==
 DependsOn(w, m) ==
   LET stmts == { w.body[m][i] : i \in DOMAIN w.body[m] } IN
   { t \in UNION { StmtLoads(w, m, s) : s \in stmts } : t \in Mods(w) /\ ~IsPrefix(t, m) }
-  \cup (IF \E s \in stmts : m \in StmtTargets(w, m, s) THEN {m} ELSE {})
+  \cup (IF \E s \in stmts : m \in SelfNamed(w, m, s) THEN {m} ELSE {})
 
 RECURSIVE ReachN(_, _, _)
 ReachN(w, S, n) ==
@@ -407,6 +442,12 @@ BindingsOf(w, m) ==
 \*             and __all__ does not list
 \*   initsub   in a package __init__, a reference starts with the name of a submodule that is
 \*             only bound because an import statement of the __init__ loaded that submodule
+\*   relmoved  a relative from-import that names a module some request may move or rename
+\*             (as its target, on the way to it, or as the imported name)
+\*   rootref   a plain import of a module some request may move, and a reference that starts with
+\*             the top-level name that import bound but does not go through that module
+\*   fromsub   a from-import whose imported name is a submodule of the package it names
+\*   siblings  two plain imports of different dotted paths under the same top-level package
 IsLate(b) == \E i \in DOMAIN b, j \in DOMAIN b : i < j /\ ~IsImportStmt(b[i]) /\ IsImportStmt(b[j])
 
 ImportedNames(w, m) ==
@@ -418,6 +459,8 @@ TagsOfModule(w, m, exported) ==
       st == RunEntry(w, m)
       own == st.ns[m]
       uses == {i \in DOMAIN b : b[i].k = "use"}
+      exprs == { b[i].e : i \in uses }
+               \cup UNION { Range(b[i].refs) : i \in {j \in DOMAIN b : b[j].k = "def"} }
       stars == {i \in DOMAIN b : IsStar(b[i])}
       listed == IF "__all__" \in DOMAIN own THEN Range(own["__all__"].x) ELSE {}
       targetNs(i) == RunEntry(w, FromTarget(w, m, b[i])).ns[FromTarget(w, m, b[i])]
@@ -438,11 +481,33 @@ TagsOfModule(w, m, exported) ==
            THEN {"starall"} ELSE {})
      \cup (IF \E i \in uses : \A j \in DOMAIN b : b[i].e[1] \notin DeclaredNames(w, m, b[j])
            THEN {"initsub"} ELSE {})
+     \cup (IF \E i \in DOMAIN b : b[i].k = "from" /\ b[i].level > 0 /\
+               \/ \E p \in w.msrc \cup w.reloc : IsPrefix(p, FromTarget(w, m, b[i]))
+               \/ \E it \in Range(b[i].items) : it.n \in { Last(p) : p \in w.msrc \cup w.reloc }
+           THEN {"relmoved"} ELSE {})
+     \cup (IF \E i \in DOMAIN b : b[i].k = "import" /\
+               \E it \in Range(b[i].items) :
+                  /\ it.as = "" /\ Len(it.path) >= 2
+                  /\ \E p \in w.reloc : IsPrefix(p, it.path)
+                  /\ \E e \in exprs : e[1] = it.path[1] /\ ~IsPrefix(it.path, e) /\
+                        \A j \in DOMAIN b : b[j].k = "import" =>
+                           \A o \in Range(b[j].items) : o.as = "" => (o.path = it.path \/ ~IsPrefix(o.path, e))
+           THEN {"rootref"} ELSE {})
+     \cup (IF \E i \in DOMAIN b : b[i].k = "from" /\ ~IsStar(b[i]) /\
+               \E it \in Range(b[i].items), q \in bd[i] :
+                  q[1] = FromItemName(it) /\ q[2].t = "mod" /\ q[2].x = Append(FromTarget(w, m, b[i]), it.n)
+           THEN {"fromsub"} ELSE {})
+     \cup (IF \E i \in DOMAIN b, j \in DOMAIN b : b[i].k = "import" /\ b[j].k = "import" /\
+               \E x \in Range(b[i].items), y \in Range(b[j].items) :
+                  x.as = "" /\ y.as = "" /\ x.path[1] = y.path[1] /\ x.path # y.path
+           THEN {"siblings"} ELSE {})
      \cup (IF listed \cap ImportedNames(w, m) # {} THEN {"allimport"} ELSE {})
      \cup (IF (exported \ listed) \cap ImportedNames(w, m) # {} THEN {"reexport"} ELSE {})
 
+\* the written modules, and the modules a C05 request takes apart
+TaggedModules(w) == Range(w.open) \cup w.msrc \cup w.mdst
 TagsWith(w, exports) ==
-  UNION { TagsOfModule(w, m, {q[1] : q \in exports[m]}) : m \in Range(w.open) }
+  UNION { TagsOfModule(w, m, {q[1] : q \in exports[m]}) : m \in TaggedModules(w) }
 
 Info(w) ==
   LET ex == ExportsAll(w) IN
@@ -490,6 +555,12 @@ ImportAlphabet(w, m) ==
   \cup (IF "rel" \in Forms
         THEN UNION { { From(f[1], f[2], <<FromItem(n, "")>>) : f \in RelForms(w, m, t), n \in Importable(w) }
                      : t \in Others(w, m) \cup {PkgOf(w, m)} }
+        ELSE {})
+  \cup (IF "rel2" \in Forms
+        THEN UNION { { From(f[1], f[2], <<FromItem(nn[1], ""), FromItem(nn[2], "")>>) :
+                         f \in {g \in RelForms(w, m, t) : g[2] # <<>>},
+                         nn \in {pp \in DefNames \X DefNames : Rank[pp[1]] < Rank[pp[2]]} }
+                     : t \in Others(w, m) }
         ELSE {})
   \cup (IF "relstar" \in Forms
         THEN UNION { { From(f[1], f[2], Star) : f \in {g \in RelForms(w, m, t) : g[2] # <<>>} }
@@ -774,13 +845,278 @@ Tidy ==
   /\ UNCHANGED <<W0, open, info>>
 
 -----------------------------------------------------------------------------
+(* Part 4b: moving and renaming (C05) on the abstract program.             *)
+(* MoveGlobal  : a top-level definition goes to another module together    *)
+(*               with the imports its body needs; the source module keeps  *)
+(*               the name available by importing it back                   *)
+(* Relocate    : a module or package gets a new dotted path (moved into a  *)
+(*               package, or renamed); every import statement and dotted   *)
+(*               reference that spells the old path spells the new one     *)
+(* ToPackage   : module m.py becomes package m/__init__.py                 *)
+(* The enabling conditions below are the legal requests of C05; TLC checks *)
+(* that under them the reference refactoring keeps the observable.         *)
+
+AbsStmt(w, m, s) ==
+  IF s.k = "from" /\ s.level > 0 THEN From(0, FromTarget(w, m, s), s.items) ELSE s
+
+AllBound(w, m) == UNION { BoundNames(w, m, w.body[m][k]) : k \in DOMAIN w.body[m] }
+Binders(w, m, n) == { k \in DOMAIN w.body[m] : n \in BoundNames(w, m, w.body[m][k]) }
+
+\* leading import statements of a body / the rest
+RECURSIVE LeadLen(_, _)
+LeadLen(b, i) == IF i > Len(b) \/ ~IsImportStmt(b[i]) THEN i - 1 ELSE LeadLen(b, i + 1)
+Lead(b) == SubSeq(b, 1, LeadLen(b, 1))
+AfterLead(b) == SubSeq(b, LeadLen(b, 1) + 1, Len(b))
+
+\* the statement that gives module T the object that name r denotes in S
+NeededImport(w, S, r) ==
+  LET k == CHOOSE j \in Binders(w, S, r) : TRUE
+      s == w.body[S][k]
+  IN IF s.k = "def" THEN From(0, S, <<FromItem(r, "")>>) ELSE AbsStmt(w, S, s)
+
+RefRoots(d) == { d.refs[j][1] : j \in DOMAIN d.refs }
+
+\* a reference of module C that reaches S.n through the module object S now goes through T
+\* (inside T itself the name is local)
+MGExpr(st, C, S, n, T, e) ==
+  LET hits == { j \in 2..Len(e) :
+                  /\ e[j] = n
+                  /\ EvalRef(st, C, e, j - 1)[1] = ""
+                  /\ EvalRef(st, C, e, j - 1)[2].t = "mod"
+                  /\ EvalRef(st, C, e, j - 1)[2].x = S }
+  IN IF hits = {} THEN e
+     ELSE LET j == CHOOSE x \in hits : TRUE
+          IN (IF C = T THEN <<n>> ELSE Append(T, n)) \o SubSeq(e, j + 1, Len(e))
+
+MapExpr(s, F(_)) ==
+  CASE s.k = "use" -> Use(F(s.e), s.fn)
+    [] s.k = "def" -> DefR(s.n, s.kind, s.id, [j \in DOMAIN s.refs |-> F(s.refs[j])])
+    [] OTHER -> s
+
+\* import statement s of module C, which took n from S
+MGStmt(w, C, S, n, T, s) ==
+  IF s.k = "from" /\ FromTarget(w, C, s) = S
+  THEN IF IsStar(s)
+       THEN IF C # T /\ n \in StarProvided(w, C, s) THEN <<s, From(0, T, <<FromItem(n, "")>>)>> ELSE <<s>>
+       ELSE LET keep == SelectSeq(s.items, LAMBDA it : it.n # n)
+                took == SelectSeq(s.items, LAMBDA it : it.n = n)
+            IN (IF keep = <<>> THEN <<>> ELSE <<From(s.level, s.path, keep)>>)
+               \o (IF C = T THEN <<>> ELSE [j \in DOMAIN took |-> From(0, T, <<took[j]>>)])
+  ELSE <<s>>
+
+NamesExprRoot(b, n) ==
+  \E k \in DOMAIN b :
+    \/ b[k].k = "use" /\ b[k].e[1] = n
+    \/ b[k].k = "def" /\ \E j \in DOMAIN b[k].refs : b[k].refs[j][1] = n
+    \/ b[k].k = "all" /\ n \in Range(b[k].names)
+
+WithTopImport(b, path) ==
+  LET fut == IF b # <<>> /\ b[1].k = "future" THEN 1 ELSE 0
+  IN SubSeq(b, 1, fut) \o <<Import(<<ImpItem(path, "")>>)>> \o SubSeq(b, fut + 1, Len(b))
+
+HasPlainImport(b, path) ==
+  \E k \in DOMAIN b : b[k].k = "import" /\ \E it \in Range(b[k].items) : it.as = "" /\ it.path = path
+
+\* body of client C (any module but S and T) after the move
+MGClient(w, C, S, n, T) ==
+  LET st == RunEntry(w, C)
+      b == w.body[C]
+      b1 == FlatMap(Len(b), LAMBDA k : MGStmt(w, C, S, n, T, b[k]), 1)
+      b2 == [k \in DOMAIN b1 |-> MapExpr(b1[k], LAMBDA e : MGExpr(st, C, S, n, T, e))]
+  IN IF b2 # b1 /\ ~HasPlainImport(b2, T) THEN WithTopImport(b2, T) ELSE b2
+
+\* does the rewriting of client C have to bring in  import T ?
+MGNeedsImport(w, C, S, n, T) ==
+  LET st == RunEntry(w, C)
+      b == w.body[C]
+  IN \E k \in DOMAIN b : MapExpr(b[k], LAMBDA e : MGExpr(st, C, S, n, T, e)) # b[k]
+
+\* new statements the destination needs, in a deterministic order
+RECURSIVE OrderStmts(_)
+OrderStmts(X) ==
+  IF X = {} THEN <<>>
+  ELSE LET x == CHOOSE y \in X : \A z \in X : ~LexLess(SortKey(z, FALSE), SortKey(y, FALSE))
+       IN <<x>> \o OrderStmts(X \ {x})
+
+MGDest(w, S, i, T) ==
+  LET d == w.body[S][i]
+      st == RunEntry(w, T)
+      tb0 == w.body[T]
+      tb1 == FlatMap(Len(tb0), LAMBDA k : MGStmt(w, T, S, d.n, T, tb0[k]), 1)
+      tb == [k \in DOMAIN tb1 |-> MapExpr(tb1[k], LAMBDA e : MGExpr(st, T, S, d.n, T, e))]
+      need == { NeededImport(w, S, r) : r \in RefRoots(d) }
+      fresh == { x \in need : \A k \in DOMAIN tb : tb[k] # x }
+      fut == IF tb # <<>> /\ tb[1].k = "future" THEN <<tb[1]>> ELSE <<>>
+      lead == SubSeq(Lead(tb), Len(fut) + 1, Len(Lead(tb)))
+  IN fut \o OrderStmts(fresh) \o lead \o <<d>> \o AfterLead(tb)
+
+MGSource(w, S, i, T) ==
+  LET b == w.body[S]
+      n == b[i].n
+      rest == SubSeq(b, 1, i - 1) \o SubSeq(b, i + 1, Len(b))
+      back == IF NamesExprRoot(rest, n) THEN <<From(0, T, <<FromItem(n, "")>>)>> ELSE <<>>
+  IN SubSeq(b, 1, i - 1) \o back \o SubSeq(b, i + 1, Len(b))
+
+MoveGlobalOp(w, S, i, T) ==
+  LET n == w.body[S][i].n IN
+  [w EXCEPT !.body = [m \in DOMAIN w.body |->
+                        IF m = S THEN MGSource(w, S, i, T)
+                        ELSE IF m = T THEN MGDest(w, S, i, T)
+                        ELSE MGClient(w, m, S, n, T)]]
+
+MoveGlobalLegal(w, S, i, T) ==
+  /\ S \in Mods(w) /\ T \in Mods(w) /\ S # T
+  /\ i \in DOMAIN w.body[S] /\ w.body[S][i].k = "def"
+  /\ LET d == w.body[S][i] IN
+     /\ Cardinality(Binders(w, S, d.n)) = 1
+     \* the destination does not bind the name, except by taking it from the source
+     /\ \A k \in Binders(w, T, d.n) :
+          w.body[T][k].k = "from" /\ FromTarget(w, T, w.body[T][k]) = S
+     /\ \A r \in RefRoots(d) :
+          /\ r # d.n
+          /\ Cardinality(Binders(w, S, r)) = 1
+          /\ LET x == NeededImport(w, S, r) IN
+             \/ \E k \in DOMAIN w.body[T] : w.body[T][k] = x
+             \/ DeclaredNames(w, S, x) \cap AllBound(w, T) = {}
+     \* the names the added statements bind do not collide with each other
+     /\ \A r1 \in RefRoots(d), r2 \in RefRoots(d) :
+          LET x1 == NeededImport(w, S, r1)
+              x2 == NeededImport(w, S, r2)
+          IN x1 # x2 => DeclaredNames(w, S, x1) \cap DeclaredNames(w, S, x2) = {}
+     \* a module that star-imports the destination does not bind, in some other way, a name the
+     \* destination gains (the star import would start to provide it)
+     /\ LET gained == {d.n} \cup UNION { DeclaredNames(w, S, NeededImport(w, S, r)) : r \in RefRoots(d) }
+        IN \A C \in Mods(w) \ {T} :
+             (\E k \in DOMAIN w.body[C] : IsStar(w.body[C][k]) /\ FromTarget(w, C, w.body[C][k]) = T)
+               => \A k \in DOMAIN w.body[C] :
+                    (~IsStar(w.body[C][k]) \/ FromTarget(w, C, w.body[C][k]) # T)
+                      => BoundNames(w, C, w.body[C][k]) \cap gained = {}
+     \* a client that must now spell the destination can do so
+     /\ \A C \in Mods(w) \ {S, T} :
+          MGNeedsImport(w, C, S, d.n, T) =>
+            \A k \in DOMAIN w.body[C] :
+              T[1] \in BoundNames(w, C, w.body[C][k]) => OnlyPlainFor(w.body[C][k], T[1])
+  /\ Acyclic(MoveGlobalOp(w, S, i, T))
+
+\* ---- a module (with everything below it) gets a new path
+NewPath(old, new, p) == IF IsPrefix(old, p) THEN new \o SubSeq(p, Len(old) + 1, Len(p)) ELSE p
+
+\* statement s of a module with only absolute imports, after old became new
+RelocStmt(old, new, s) ==
+  CASE s.k = "import" ->
+         <<Import([j \in DOMAIN s.items |->
+                     ImpItem(NewPath(old, new, s.items[j].path), s.items[j].as)])>>
+    [] s.k = "from" ->
+         IF IsPrefix(old, s.path) THEN <<From(0, NewPath(old, new, s.path), s.items)>>
+         ELSE LET hit == { j \in DOMAIN s.items : Append(s.path, s.items[j].n) = old }
+                  keep == SelectSeq(s.items, LAMBDA it : Append(s.path, it.n) # old)
+                  moved(it) ==
+                    LET bind == IF it.as = "" THEN it.n ELSE it.as
+                        as == IF bind = Last(new) THEN "" ELSE bind
+                    IN IF Len(new) > 1 THEN From(0, Front(new), <<FromItem(Last(new), as)>>)
+                       ELSE Import(<<ImpItem(new, IF bind = Last(new) THEN "" ELSE bind)>>)
+              IN IF hit = {} THEN <<s>>
+                 ELSE (IF keep = <<>> THEN <<>> ELSE <<From(0, s.path, keep)>>)
+                      \o FlatMap(Len(s.items),
+                                 LAMBDA j : IF j \in hit THEN <<moved(s.items[j])>> ELSE <<>>, 1)
+    [] OTHER -> <<s>>
+
+\* dotted paths that plain import statements of body b spell and that start with old
+PlainOld(old, b) ==
+  UNION { { it.path : it \in { x \in Range(b[k].items) : x.as = "" /\ IsPrefix(old, x.path) } }
+          : k \in { j \in DOMAIN b : b[j].k = "import" } }
+
+\* rewrite one expression: the longest plainly imported old path it starts with (or old itself,
+\* when the module reaches it through such an import)
+RelocExpr(old, new, paths, e) ==
+  LET cands == { x \in paths \cup (IF paths = {} THEN {} ELSE {old}) : IsPrefix(x, e) }
+  IN IF cands = {} THEN e
+     ELSE LET x == CHOOSE y \in cands : \A z \in cands : Len(z) <= Len(y)
+          IN NewPath(old, new, x) \o SubSeq(e, Len(x) + 1, Len(e))
+
+RelocBody(w, old, new, m) ==
+  LET b0 == RelToAbsOf(w, m, w.body[m])
+      paths == PlainOld(old, b0)
+      b1 == FlatMap(Len(b0), LAMBDA k : RelocStmt(old, new, b0[k]), 1)
+      b2 == [k \in DOMAIN b1 |-> MapExpr(b1[k], LAMBDA e : RelocExpr(old, new, paths, e))]
+      \* a plain import of old also bound the first name of old: references to other things under
+      \* that name need it back
+      lost == Len(old) > 1 /\ new[1] # old[1] /\ paths # {} /\
+              \E k \in DOMAIN b2 :
+                \/ b2[k].k = "use" /\ b2[k].e[1] = old[1]
+                \/ b2[k].k = "def" /\ \E j \in DOMAIN b2[k].refs : b2[k].refs[j][1] = old[1]
+      stillBound == \E k \in DOMAIN b2 : b2[k].k = "import" /\
+                      \E it \in Range(b2[k].items) : it.as = "" /\ it.path[1] = old[1]
+      fut == IF b2 # <<>> /\ b2[1].k = "future" THEN 1 ELSE 0
+  IN IF lost /\ ~stillBound
+     THEN SubSeq(b2, 1, fut) \o <<Import(<<ImpItem(Front(old), "")>>)>> \o SubSeq(b2, fut + 1, Len(b2))
+     ELSE b2
+
+RelocateOp(w, old, new) ==
+  LET np(p) == NewPath(old, new, p)
+      paths == { np(p) : p \in Mods(w) }
+      back(q) == CHOOSE p \in Mods(w) : np(p) = q
+  IN [w EXCEPT !.body = [q \in paths |-> RelocBody(w, old, new, back(q))],
+               !.pkgs = { np(p) : p \in w.pkgs },
+               !.mid = [q \in paths |-> w.mid[back(q)]]]
+
+RelocateLegal(w, old, new) ==
+  /\ old \in Mods(w) /\ new # old /\ Len(new) >= 1
+  /\ \A p \in Mods(w) : ~IsPrefix(new, p)
+  /\ Len(new) = 1 \/ Front(new) \in w.pkgs
+  /\ ~IsPrefix(old, Front(new))
+  \* the new top-level name is not in use for something else in any module that will spell it
+  /\ \A m \in Mods(w) :
+       PlainOld(old, RelToAbsOf(w, m, w.body[m])) # {} => new[1] = old[1] \/ new[1] \notin AllBound(w, m)
+  /\ Acyclic(RelocateOp(w, old, new))
+
+ToPackageOp(w, m) ==
+  [w EXCEPT !.body[m] = RelToAbsOf(w, m, w.body[m]), !.pkgs = @ \cup {m}]
+ToPackageLegal(w, m) == m \in Mods(w) /\ m \notin w.pkgs
+
+C05Actions == {"MoveGlobal", "MoveModule", "RenameModule", "ToPackage"}
+
+\* the requests of C05 that are legal on world w
+LegalMoves(w) ==
+  UNION { { [name |-> "MoveGlobal", m |-> S, i |-> i, n |-> w.body[S][i].n, dest |-> T] :
+              i \in { j \in DOMAIN w.body[S] : w.body[S][j].k = "def" }, T \in w.mdst }
+          : S \in w.msrc }
+  \cup { [name |-> "MoveModule", m |-> old, dest |-> pk, new |-> Append(pk, Last(old))] :
+           old \in w.reloc, pk \in (w.pkgs \cup {<<>>}) }
+  \cup { [name |-> "RenameModule", m |-> old, to |-> nn, new |-> Append(Front(old), nn)] :
+           old \in w.reloc, nn \in w.newnames }
+  \cup { [name |-> "ToPackage", m |-> m] : m \in w.topkg }
+
+IsLegalMove(w, a) ==
+  CASE a.name = "MoveGlobal" -> MoveGlobalLegal(w, a.m, a.i, a.dest)
+    [] a.name = "MoveModule" -> a.dest # Front(a.m) /\ RelocateLegal(w, a.m, a.new)
+    [] a.name = "RenameModule" -> RelocateLegal(w, a.m, a.new)
+    [] a.name = "ToPackage" -> ToPackageLegal(w, a.m)
+
+ApplyMove(w, a) ==
+  CASE a.name = "MoveGlobal" -> MoveGlobalOp(w, a.m, a.i, a.dest)
+    [] a.name = "MoveModule" -> RelocateOp(w, a.m, a.new)
+    [] a.name = "RenameModule" -> RelocateOp(w, a.m, a.new)
+    [] a.name = "ToPackage" -> ToPackageOp(w, a.m)
+
+Requests(w) == { a \in LegalMoves(w) : a.name \in Actions /\ IsLegalMove(w, a) }
+
+Move ==
+  /\ phase = "built"
+  /\ \E a \in Requests(W) :
+       /\ act' = a
+       /\ W' = ApplyMove(W, a)
+  /\ phase' = "done"
+  /\ UNCHANGED <<W0, open, info>>
+
+-----------------------------------------------------------------------------
 Init ==
   /\ \E w \in Worlds :
        /\ W = w
        /\ open = w.open
   /\ W0 = <<>> /\ phase = "build" /\ act = <<>> /\ info = <<>>
 
-Next == AddStmt \/ NextOpen \/ Finish \/ Tidy
+Next == AddStmt \/ NextOpen \/ Finish \/ Tidy \/ Move
 
 Spec == Init /\ [][Next]_vars
 
@@ -809,8 +1145,19 @@ Idempotent ==
 
 \* what other modules (or __all__) take from a module is still there
 ExportsKept ==
-  Done => \A m \in Mods(W0) : \A q \in info.exports[m] :
-            m \in Mods(W) /\ ExportValue(W, m, q[1]) = q[2]
+  (Done /\ act.name \notin {"MoveModule", "RenameModule"}) =>
+     \A m \in Mods(W0) : \A q \in info.exports[m] :
+        \/ act.name = "MoveGlobal" /\ m = act.m /\ q[1] = act.n     \* leaves on purpose
+        \/ m \in Mods(W) /\ ExportValue(W, m, q[1]) = q[2]
+
+\* the moved definition, called where it now lives, reaches what its references reached
+MovedIdent(w, home, id) == CallDef(w, RunEntry(w, home), id)
+MovedSeesItsNames ==
+  (Done /\ act.name = "MoveGlobal") =>
+     LET id == W0.body[act.m][act.i].id
+         before == MovedIdent(W0, act.m, id)
+         after == MovedIdent(W, act.dest, id)
+     IN after[1] = "" /\ after[2] = before[2]
 
 StillWellFormed == Done => WellFormed(W)
 
